@@ -490,6 +490,27 @@ def run(ctx: Ctx) -> int:
     ok = len(reg) == 1 and len(reg[0].args) == 1 and not get_kwarg(reg[0], "serializer")
     ctx.oblige("C20.d", ok, None, "SecretStr is registered with the default serializer str (the mask)" if ok else "SecretStr is registered with a custom serializer", site="typing:<module> register_type(SecretStr)", construct="SecretStr registration", function="typing:<module>")
 
+    # ---------------- C20.c.iv: "already of this type" is decided for the registered class ------------------------------
+    # RegisteredType.is_value_of_type(value) = type_check(value, type_class); a value that passes is NOT deserialised (and
+    # so not validated) again.  A custom type_check must therefore decide membership in the class it is given - a test
+    # against a common base class lets a value of a sibling type (a Path_fr for a Path_dw argument) through unchecked.
+    n_tc = 0
+    for fq_, fn_ in ctx.repo.all_funcs():
+        if not fq_.startswith("typing:"):
+            continue
+        for c in calls_in(fn_):
+            tc = get_kwarg(c, "type_check")
+            if tc is None or call_leaf(c) not in ("add_type", "register_type", "register_type_on_first_use"):
+                continue
+            n_tc += 1
+            _judge_type_check(ctx, ty, tc, c, fn_)
+    for c in _module_level_calls(ty.tree, {"register_type", "register_type_on_first_use", "add_type"}):
+        tc = get_kwarg(c, "type_check")
+        if tc is not None:
+            n_tc += 1
+            _judge_type_check(ctx, ty, tc, c, None)
+    ctx.floor("C20.c.iv-type-checks", n_tc, 2)
+
     return ctx.finish(
         explanation=(
             "Order (validate dominates cast), table (operator/symbol, and/or joins) and registry cross-checks over every register_type call: no lossy numeric serializer, custom "
@@ -498,4 +519,33 @@ def run(ctx: Ctx) -> int:
             "never reaches __str__/__repr__. Not decided: acceptance <=> predicate and the round trip for every value."
         ),
         rule_text="one obligation per registry entry and rule; language inclusions decided exactly on product DFAs",
+    )
+
+
+def _judge_type_check(ctx, ty, tc, call, fn_):
+    """type_check=<callable>: the callable's second parameter (the registered class) must take part in the decision."""
+    what = ast.unparse(tc)
+    if isinstance(tc, ast.Name) and tc.id == "isinstance":
+        ctx.oblige("C20.c.iv", True, call, "type_check=isinstance tests the registered class", fn=fn_, site=None if fn_ is not None else f"typing:<module> :: {src(call, 80)}", construct=f"type_check {what}", function=None if fn_ is not None else "typing:<module>")
+        return
+    body = params = None
+    if isinstance(tc, ast.Lambda):
+        params = [a.arg for a in tc.args.args]
+        body = tc.body
+    elif isinstance(tc, ast.Name) and tc.id in ty.funcs:
+        f = ty.funcs[tc.id]
+        params = [a.arg for a in f.args.args]
+        body = f
+    if body is None or params is None or len(params) < 2:
+        raise AnalysisError(f"type_check callable `{what}` cannot be resolved to a two-parameter function of jsonargparse.typing")
+    used = any(isinstance(n_, ast.Name) and n_.id == params[1] for n_ in ast.walk(body))
+    ctx.oblige(
+        "C20.c.iv",
+        used,
+        call,
+        f"`{what}` decides membership in the class it is given" if used else f"`{what}` ignores the registered class (its parameter `{params[1]}` is unused): every value that passes its test counts as already converted for EVERY type registered with it - a Path_fr instance given for a Path_dw argument (parse_object, defaults, link results) is accepted without the directory / write check",
+        fn=fn_,
+        site=None if fn_ is not None else f"typing:<module> :: {src(call, 80)}",
+        construct=f"type_check {what} uses the class",
+        function=None if fn_ is not None else "typing:<module>",
     )
